@@ -46,6 +46,13 @@ I_RecordsArePublished ==
 T_ControllerDispatches ==
   (l > 1 /\ Trace[l - 1].a = "Stalled") => ~(mem.up /\ mem.leader /\ mem.disps = 0)
 
+\* C18_IdleMeansPublished on the recorded server: a "Quiet" line is written when the
+\* controller (up, promoted, activity partition not blocked, dispatcher goroutine alive
+\* and not held by the driver) did nothing at all - no publish, no record, no failure
+\* report, Raft idle - for longer than the longest retry interval of the dispatcher.
+T_IdleMeansPublished ==
+  (l > 1 /\ Trace[l - 1].a = "Quiet") => Pending = {}
+
 \* the lowest replicated lastPublished a dispatcher that may still publish can
 \* have started from: on one server the value before the step; with several
 \* servers the value before the last controller change (the previous
@@ -71,6 +78,7 @@ TraceNext ==
      /\ Chk(C18_FirstOrder', "P", e, "C18_FirstOrder")
      /\ Chk(C18_LPSound', "P", e, "C18_LPSound")
      /\ Chk(T_ControllerDispatches', "P", e, "C18_ControllerDispatches")
+     /\ Chk(T_IdleMeansPublished', "P", e, "C18_IdleMeansPublished")
      /\ Chk(I_RecordsArePublished', "I", e, "I_RecordsArePublished")
      /\ Chk(TypeOK', "I", e, "TypeOK")
 
